@@ -5,6 +5,7 @@ from mc.core.ctx import Res
 from mc.core import grid
 from mc.ref import driver
 from mc.props import evcommon as ec
+from mc.props import loopcommon as lc
 
 LEVEL = "exploration"
 
@@ -57,6 +58,70 @@ def check_case(case):
     return r
 
 
+def gap_case(case):
+    """Richardson-extrapolated wrappers (the methods the event cells do not cover): the committed state of a step and the end state of its dense pieces differ
+    by the extrapolation correction.  Pass 1 runs without events and reads both; pass 2 watches levels placed (a) midway inside that gap at several step
+    boundaries - 'a crossing that coincides with a step boundary' - and (b) at mid-step values; every strict sign change between recorded rows must be reported."""
+    de, I = lc._imports()
+    r = Res()
+    name = case["method"]
+    dtype = np.float64
+    t0, tf = case["span"]
+    d = 1.0 if tf > t0 else -1.0
+
+    def f(t, y, **kw):
+        return np.array([y[1], -y[0]], dtype=y.dtype)
+
+    def make(events=None):
+        a = de.OdeSystem(f, y0=np.array([np.sin(t0), np.cos(t0)], dtype=dtype), t=(dtype(t0), dtype(tf)), dt=dtype(0.125), rtol=dtype(case["tol"]), atol=dtype(case["tol"]),
+                         dense_output=bool(case["dense"]) or events is None)
+        a.method = lc.by_name(name)
+        return a
+    r.n = 1
+    try:
+        ref = make()
+        ref.integrate(callback=driver.Budget(20000))
+        T = np.asarray(ref.t); Y = np.asarray(ref.y)
+        levels = []
+        for n in range(1, len(T) - 1, max(1, (len(T) - 2) // 6)):
+            # end state of the pieces of step n-1 (the piece whose end time is T[n]) versus the committed state
+            ends = [p for p in ref.sol.y_interpolants if float(p.t1) == float(T[n]) or float(p.t0) == float(T[n])]
+            vals = sorted(set([float(np.asarray(p.p1)[0]) for p in ends if float(p.t1) == float(T[n])] + [float(np.asarray(p.p0)[0]) for p in ends if float(p.t0) == float(T[n])]))
+            yn = float(Y[n][0])
+            for v in vals:
+                if v != yn:
+                    levels.append(0.5 * (v + yn))
+            levels.append(0.5 * (float(Y[n][0]) + float(Y[n + 1][0])))
+        for c in levels:
+            for sc in case["scales"]:
+                def g(t, y, **kw):
+                    return np.asarray(sc * (y[0] - c))
+                a = make([g])
+                a.integrate(events=[g], callback=driver.Budget(20000))
+                Tn = np.asarray(a.t); Yn = np.asarray(a.y)
+                rep = [float(st.t) for st in a.events]
+                e = driver.eps_of(dtype)
+                for k in range(len(Tn) - 1):
+                    g0, g1 = float(sc * (Yn[k][0] - c)), float(sc * (Yn[k + 1][0] - c))
+                    if g0 * g1 < 0:
+                        r.add("sign_changes_demanded")
+                        lo, hi = (float(Tn[k]), float(Tn[k + 1])) if d > 0 else (float(Tn[k + 1]), float(Tn[k]))
+                        slack = 8 * e * max(1.0, abs(lo), abs(hi))
+                        if not any(lo - slack <= te <= hi + slack for te in rep):
+                            # one record per missed (level, scale, step): the open finding F35 lists the inputs that fail on the unchanged tree one by one
+                            gk = "%s|%r|%r|%d|%r|%r|%d" % (name, case["span"][0], case["span"][1], int(case["dense"]), float(c), float(sc), k)
+                            r.v("C08/missed-gap/%s" % name, "a sign change of g between the ends of an accepted step is reported", dict(case, level=c, scale=sc, step=k, gapkey=gk),
+                                observed=dict(step=[lo, hi], g=[g0, g1], reported=rep[:6]), expected="an event of this function inside the step")
+    except de.exception_types.FailedIntegration as ex:
+        if driver.budget_hit(ex):
+            r.v("C08/runaway/%s" % name, "integration with events terminates", case, observed="step budget", expected="terminates")
+        else:
+            r.add("raised")
+        return r
+    r.out(("gap", name, int(d), case["dense"], len(levels)))
+    return r
+
+
 def run(ctx):
     ctx.rule = ("same cell product as C07 (problems x signed spans x event sets with 1..%d simultaneous events x scale over 12 orders of magnitude x direction flags x 5 methods x dense on/off); "
                 "for every recorded step and event with a strict sign change of g between the two recorded rows (direction compatible) an event inside that step is demanded; "
@@ -64,10 +129,19 @@ def run(ctx):
     ctx.assumptions += ["the oracle uses only recorded rows and the user's g, with strict inequality, so it never demands an event the statement does not",
                         "direction compatibility is judged along the direction of integration"]
     cs = ec.cells(ctx.quick)
-    grid.pmap(check_case, cs, ctx, horizon=300)
-    ctx.note("cells", total=len(cs))
+    gaps = [dict(gap=True, method=m, span=list(sp), dense=dn, tol=1e-6, scales=[1.0, -1e3])
+            for m in ("RICH:RK45CKSolver:2", "RICH:ABAs5o6HSolver:2", "RICH:RK4Solver:3")
+            for sp in ((0.0, 6.0), (0.0, -6.0), (2.0, -3.0)) for dn in (True, False)]           # (the same in both tiers: F35 lists its failing inputs one by one)
+    grid.pmap(run_any, cs + gaps, ctx, horizon=300)
+    ctx.note("cells", total=len(cs), gap_cells=len(gaps))
+
+
+def run_any(case):
+    return gap_case(case) if case.get("gap") else check_case(case)
 
 
 def replay(case):
+    if case.get("gap"):
+        return gap_case({k: v for k, v in case.items() if k not in ("level", "scale", "step", "gapkey")})
     case = {k: v for k, v in case.items() if k not in ("event_index", "step")}
     return check_case(case)
